@@ -8,6 +8,7 @@
 -/
 import Lemmas.RealCarrier
 import Lemmas.TieTactics
+import Lemmas.TieSums
 import Proofs.TieLJ
 import Generated.FnsLJShape
 
@@ -22,7 +23,11 @@ theorem declared_translated_ljshape : Gen.fnsLJShapeUntranslated = [] := by deci
 theorem ljshape_energy_tie (xs ys : List (LJ2 ℝ)) :
     Gen.ljshape_energy xs ys = (Shape.lj xs).energy (Shape.lj ys) := by
   unfold Gen.ljshape_energy Shape.energy
-  simp only [lj2_energy_tie]
+  -- `iproduct!(..).map(..).sum()`, nested `for` loops with `total += ..` and `fold`s all normalise to the same sums
+  first
+  | (simp only [lj2_energy_tie]; done)
+  | (simp only [lj2_energy_tie]; tie_sums; done)
+  | (simp only [lj2_energy_tie]; tie_sums; ring_nf; done)
 
 theorem ljshape_radius_tie (xs : List (LJ2 ℝ)) :
     Gen.ljshape_enclosing_radius xs = (Shape.lj xs).enclosingRadius := by
